@@ -270,6 +270,20 @@ static void cabd_close(struct mscab_decompressor *base,
       sys->free(fol);
     }
 
+    /* a cabinet of this set may also be further along the ->next chain
+     * (parts found by one search() and joined with each other): take it
+     * out of that chain, it is freed with the set below */
+    for (cab = origcab->prevcab; cab; cab = cab->prevcab) {
+      for (ncab = origcab; ncab->next; ) {
+        if (ncab->next == cab) ncab->next = cab->next; else ncab = ncab->next;
+      }
+    }
+    for (cab = origcab->nextcab; cab; cab = cab->nextcab) {
+      for (ncab = origcab; ncab->next; ) {
+        if (ncab->next == cab) ncab->next = cab->next; else ncab = ncab->next;
+      }
+    }
+
     /* free predecessor cabinets (and the original cabinet's strings) */
     for (cab = origcab; cab; cab = ncab) {
       ncab = cab->prevcab;
